@@ -22,7 +22,10 @@ from common import (NCPU, Report, ToolError, check_action_coverage, inproc_map, 
 import genlines
 import ptydrv
 
-ENTRIES = ("c", "script", "function", "source")
+ENTRIES = ("c", "script", "function", "source", "script-ctx", "function-ctx")
+# the -ctx entries place the line between other, indented lines (markers Z1 / Z2, ignored in the comparison): the way a line
+# of a real script or function body is surrounded; the script's status is then that of the last marker and is not compared
+CTX = ("script-ctx", "function-ctx")
 
 
 def wrap(case, entry):
@@ -36,6 +39,10 @@ def wrap(case, entry):
         c.update(entry="script", text=line + "\n")
     elif entry == "function":
         c.update(entry="script", text="function vfentry() {\n" + line + "\n}\nvfentry\n")
+    elif entry == "script-ctx":
+        c.update(entry="script", text="vmk Z1 0\n" + line + "\n    vmk Z2 0\n")
+    elif entry == "function-ctx":
+        c.update(entry="script", text="function vfentry() {\n    vmk Z1 0\n    " + line + "\n    vmk Z2 0\n}\nvfentry\n")
     elif entry == "source":
         c["vhfiles"]["inc.sh"] = line + "\n"
         c.update(entry="script", text="source @SCRATCH@/vh/inc.sh\n")
@@ -60,6 +67,8 @@ def observe(res, pid_in_argv=False):
     sre = re.compile(r"/(?:dev/shm|[^ ]*/\.work)/vf-\d+/c\d+")
     recs = []
     for r in res.get("log", []):
+        if str(r.get("id", "")) in ("Z1", "Z2"):
+            continue        # scaffolding of the -ctx entries
         o, ppid = norm_rec(r, sre)
         if isinstance(o.get("argv"), list) and ppid:
             # the shell's own pid ($$) differs from run to run: an argument that is exactly / contains it is normalised
@@ -157,6 +166,8 @@ def runner(rep, tier, seed, replay):
             else:
                 ra, rb = run_cases([wrap(base, "c"), wrap(base, e)])
                 a, b = observe(ra, base.get("pid_in_argv", False)), observe(rb, base.get("pid_in_argv", False))
+                if e in CTX:
+                    b["status"] = a["status"]
                 k = diff_kind(a, b)
             if k:
                 rep.violation(k + "/" + e, "replayed case still differs", dict(c, now=b), feat_of(base, e, k))
@@ -264,8 +275,12 @@ def runner(rep, tier, seed, replay):
         base = observe(rs[0], c.get("pid_in_argv", False))
         differs = False
         for e, x in zip(ENTRIES[1:], rs[1:]):
+            if e in CTX and (len(c["text"]) - len(c["text"].rstrip("\\"))) % 2 == 1:
+                continue        # an unescaped backslash at the end joins the next line: a different program
             rep.cov["evaluations"] += 1
             o = observe(x, c.get("pid_in_argv", False))
+            if e in CTX:
+                o["status"] = base["status"]
             k = diff_kind(base, o)
             if k:
                 differs = True
